@@ -581,7 +581,7 @@ async fn run_task_scenario(sc: &Scenario, sink: &Sink) {
             "max_timeouts":0,"retry":sc.retry,"txid0":0,"port":sc.port}));
     } else {
         sink.emit(json!({"e":"cfg","id":sc.id,"mode":sc.mode,"framing":sc.framing,"queue":sc.queue,
-            "max_timeouts":sc.max_timeouts,"retry":sc.retry,"txid0":0}));
+            "max_timeouts":sc.max_timeouts,"retry":sc.retry,"txid0":-1}));
     }
     let port_ok = Arc::new(std::sync::atomic::AtomicBool::new(sc.port));
     let opened: Arc<Mutex<Option<IoHandle>>> = Arc::new(Mutex::new(None));
